@@ -188,6 +188,11 @@ func execC04(x *X) {
 		env.Head.UUID = FixedHeadUUID(int(x.P.Run % 1000))
 		ops = ops[lead:]
 		x.Probe("first-calculation-from-source")
+		if srcDoc.Get("issue_date") == nil {
+			if v, _ := ParseJV(Marshal(env)); v != nil && v.Get("doc").Get("issue_date").Str() != "" {
+				x.Probe("undated-doc-dated-by-clock")
+			}
+		}
 	} else {
 		var err error
 		env, err = ParseEnv(d.Env)
